@@ -66,11 +66,11 @@ def run(prop, tier, mode):
     c.validate(SPEC, "TraceFixedString", tcfg, tr, "R")
     # T: random histories far outside the model bounds
     wild = "1" if mode == "c10" else "0"
-    cases, ops = (60, 120) if tier == "quick" else (2000, 200)
+    cases, ops = (150, 150) if tier == "quick" else (5000, 200)
     tr2 = os.path.join(c.wd, "random.ndjson")
     c.drive(exe, ["--random", "--seed", SEED, "--cases", cases, "--ops", ops, "--wild", wild], tr2, "T", timeout=900)
     c.validate(SPEC, "TraceFixedString", tcfg, tr2, "T")
-    hcases = 2 if tier == "quick" else 8
+    hcases = 2 if tier == "quick" else 16
     tr3 = os.path.join(c.wd, "random_huge.ndjson")
     c.drive(exe, ["--random", "--seed", SEED + 1, "--cases", hcases, "--ops", 20, "--wild", wild, "--huge", 1], tr3, "T-huge", timeout=900)
     # 65536-element sequences need a deeper Java stack in TLC's evaluator
